@@ -256,6 +256,8 @@ pub struct Cfg {
     pub timeout_ms: u64,
     /// `max_size` of every client connection.
     pub clients: Vec<usize>,
+    /// Server tick offset applied before anything connects (wrap-around cells).
+    pub tick_offset: u32,
     /// Register the event vocabulary of `events.rs`.
     pub events: bool,
     /// Clients whose app is built with one extra replication rule (a different protocol).
@@ -278,9 +280,23 @@ impl Default for Cfg {
             track: false,
             timeout_ms: 10_000,
             clients: vec![1200],
+            tick_offset: 0,
             events: false,
             mismatch: vec![],
         }
+    }
+}
+
+/// Ticks announced by `MutateTickReceived`, in order of observation.
+#[derive(Resource, Default)]
+pub struct MutateTicksSeen(pub Vec<u32>);
+
+fn record_mutate_ticks(
+    mut r: EventReader<bevy_replicon::client::server_mutate_ticks::MutateTickReceived>,
+    mut seen: ResMut<MutateTicksSeen>,
+) {
+    for e in r.read() {
+        seen.0.push(e.tick.get());
     }
 }
 
@@ -343,6 +359,8 @@ pub fn build_app_with(cfg: &Cfg, extra_rule: bool) -> App {
     }
     if cfg.track {
         app.track_mutate_messages();
+        app.init_resource::<MutateTicksSeen>()
+            .add_systems(Update, record_mutate_ticks);
     }
     if cfg.events {
         crate::events::register(&mut app);
@@ -671,6 +689,17 @@ impl Sim {
             .world_mut()
             .resource_mut::<RepliconServer>()
             .set_running(true);
+        if cfg.tick_offset != 0 {
+            sim.server
+                .world_mut()
+                .resource_mut::<ServerTick>()
+                .increment_by(cfg.tick_offset);
+            sim.snaps.insert(cfg.tick_offset, Snap::new());
+            sim.vis_snaps
+                .insert(cfg.tick_offset, vec![BTreeSet::new(); cfg.clients.len()]);
+            sim.auth_snaps
+                .insert(cfg.tick_offset, vec![false; cfg.clients.len()]);
+        }
         for (i, &max_size) in cfg.clients.iter().enumerate() {
             let app = build_app_with(cfg, cfg.mismatch.contains(&i));
             sim.clients.push(ClientSide {
